@@ -73,6 +73,27 @@ theorem Rerun.same {K : Nat} {P : St → EP} {s : St} {t t' : RState} {v : View}
   · intro z hz; rw [newZ_self] at hz; simp at hz
 
 
+/-- only the node-id counter moved; the tree kept its effects -/
+theorem Rerun.same_next {K : Nat} {P : St → EP} (hP : PredOK K P) {s : St} {t t' : RState} {v : View}
+    (hi : RInv K s) (n : Nat) (hg : GoodP (P s) v t') (he : effsOf t' = effsOf t) (hnd : (effsOf t).Nodup)
+    (hb : ∀ x ∈ effsOf t, x < s.prog.length) : Rerun K P s t v t' { s with next := n } := by
+  have hz : newZ s { s with next := n } = [] := by simp [newZ]
+  have hx : Ext K (fun _ => False) s { s with next := n } :=
+    Ext.of_rs_prog _ (fun _ hf => hf.elim) rfl rfl (fun _ h => h)
+  refine ⟨hi.of_rs_prog rfl rfl, by rw [hz]; simp, ?_, ?_, ?_, ?_, ?_, ?_, fun x hx => Or.inl hx, rfl, rfl, rfl⟩
+  · rw [hz]; exact hx.mono (fun _ hf => hf.elim) (fun _ h => by simp [zEffs] at h)
+  · exact GoodP.map v t' hg (fun _ _ _ _ hp => hP.ext hi hx (fun hf => hf) hp)
+  · intro x _; rw [hz, he]; simp [zEffs]
+  · intro x hx'
+    rw [hz, he]
+    refine ⟨List.nodup_iff_count.1 hnd x, by simp [zEffs], fun hm => ?_⟩
+    have := hb x hm
+    show x < s.prog.length
+    omega
+  · intro z hz'; rw [hz] at hz'; simp at hz'
+  · intro z hz'; rw [hz] at hz'; simp at hz'
+
+
 theorem goodP_either {P : EP} {e : Nat} {c : Expr} {a b : View} {l : Bool} {inner : RState}
     (hp : P e c (fun v => l = (v != 0))) (h1 : l = true → GoodP P a inner) (h2 : l = false → GoodP P b inner) :
     GoodP P (.either c a b) (.either e c a b l inner) := by
@@ -401,7 +422,29 @@ theorem rerunIn_spec : ∀ (v : View) (t : RState), GoodP P0 v t → v.wf K = tr
           exact hP.ext hi hin.ext (hin.not_acted hnd' (by simp) (hbT e' (by simp)).2) (hothers _ _ _ he hpe)
     | _ => simp only [GoodP] at hg
   | «show» c a b _ _ => intro t _ _ hc; simp [View.core] at hc
-  | forKeyed sel lists => intro t _ _ hc; simp [View.core] at hc
+  | forKeyed sel lists =>
+    intro t hg hw _ hnd
+    cases t with
+    | forK e' sel' lists' ks texts =>
+      simp only [GoodP] at hg
+      obtain ⟨hs, hl, hpe, hk⟩ := hg
+      subst hs; subst hl
+      have hwf := p0_wf hP hi hothers hself e' sel _ hpe
+      have hb : ∀ y ∈ effsOf (RState.forK e' sel lists ks texts), y < s.prog.length := by
+        intro y hy; simp only [effsOf, List.mem_singleton] at hy; rw [hy]; exact hwf.2.1
+      by_cases he : e' = e
+      · subst he
+        rw [rerunIn_forK_self]
+        dsimp only
+        obtain ⟨n, hn⟩ := rerunFor_st s ks texts (listAt lists w)
+        rw [hn]
+        refine Rerun.same_next hP hi n ?_ rfl hnd hb
+        simp only [GoodP]
+        exact ⟨trivial, trivial, hself _ _ hpe _ (rerunFor_hashed _ _ _ _),
+          rerunFor_kok _ _ hk (listAt_nodup (wf_forKeyed hw).2 _)⟩
+      · rw [rerunIn_forK_other he]
+        exact Rerun.same hi (by simp only [GoodP]; exact ⟨trivial, trivial, hothers _ _ _ he hpe, hk⟩) rfl hnd hb
+    | _ => simp only [GoodP] at hg
 
 end rerun
 
